@@ -23,6 +23,7 @@ enum Kind {
     Type,
     Dup,
     Connected,
+    Unbound,
 }
 impl Kind {
     fn tag(&self) -> &'static str {
@@ -31,6 +32,7 @@ impl Kind {
             Kind::Type => "type",
             Kind::Dup => "dup",
             Kind::Connected => "connected",
+            Kind::Unbound => "unbound",
         }
     }
 }
@@ -45,8 +47,11 @@ struct Planted {
     n: usize,
     constrained: bool,
     indexed: bool,
-    /// a statement that must succeed after the failed one (a value the failed row must have released)
-    after: Option<String>,
+    /// statements run after the failed one with the outcome they must have (true = must succeed):
+    /// a value the failed row must have released / a value its node must still hold
+    after: Vec<(String, bool)>,
+    /// false: the streaming model does not apply (unique constraints, non-literal maps)
+    modelled: bool,
 }
 
 fn s(v: &str) -> Ex {
@@ -92,7 +97,7 @@ fn gen_case(rng: &mut Rng, n: usize, pos: usize, which: u64) -> Planted {
         0 | 1 => {
             let kind = if which == 0 { Kind::Div0 } else { Kind::Type };
             let st = St { cls: vec![Cl::Unwind(Ex::List(poisoned_list(rng, n, pos, kind)), 0), Cl::Create(vec![CPath { a: NPat { props: vec![(0, fallible(kind)), (1, Ex::Var(0))], ..l1.clone() }, seg: None }])], ret: None };
-            Planted { setup, st, clause: "create", kind, pos, n, constrained: false, indexed, after: None }
+            Planted { setup, st, clause: "create", kind, pos, n, constrained: false, indexed, after: vec![], modelled: true }
         }
         // CREATE path, failure in the relationship property
         2 => {
@@ -103,13 +108,13 @@ fn gen_case(rng: &mut Rng, n: usize, pos: usize, which: u64) -> Planted {
                 ],
                 ret: None,
             };
-            Planted { setup, st, clause: "createpath", kind: Kind::Div0, pos, n, constrained: false, indexed, after: None }
+            Planted { setup, st, clause: "createpath", kind: Kind::Div0, pos, n, constrained: false, indexed, after: vec![], modelled: true }
         }
         // MERGE
         3 | 4 => {
             let kind = if which == 3 { Kind::Div0 } else { Kind::Type };
             let st = St { cls: vec![Cl::Unwind(Ex::List(poisoned_list(rng, n, pos, kind)), 0), Cl::Merge(NPat { props: vec![(0, fallible(kind))], ..l1.clone() }, vec![], vec![])], ret: None };
-            Planted { setup, st, clause: "merge", kind, pos, n, constrained: false, indexed, after: None }
+            Planted { setup, st, clause: "merge", kind, pos, n, constrained: false, indexed, after: vec![], modelled: true }
         }
         // SET on one matched node per row
         5 | 6 => {
@@ -125,7 +130,7 @@ fn gen_case(rng: &mut Rng, n: usize, pos: usize, which: u64) -> Planted {
                 cls: vec![Cl::Unwind(Ex::List(rows), 0), Cl::MatchN(1, vec![1], vec![]), Cl::Filter(bin("eq", Ex::Prop(1, 2), Ex::Prop(0, 0))), Cl::Set(vec![SetItem::Prop(1, 0, rhs)])],
                 ret: None,
             };
-            Planted { setup, st, clause: "set", kind, pos, n, constrained: false, indexed, after: None }
+            Planted { setup, st, clause: "set", kind, pos, n, constrained: false, indexed, after: vec![], modelled: true }
         }
         // duplicate value under a unique constraint: CREATE
         7 => {
@@ -137,7 +142,7 @@ fn gen_case(rng: &mut Rng, n: usize, pos: usize, which: u64) -> Planted {
                 vals[pos] = vals[rng.usize(pos)];
             }
             let st = St { cls: vec![Cl::Unwind(Ex::List(vals.iter().map(|v| int(*v)).collect()), 0), Cl::Create(vec![CPath { a: NPat { var: Some(1), labels: vec![0], props: vec![(0, Ex::Var(0))] }, seg: None }])], ret: None };
-            Planted { setup, st, clause: "create", kind: Kind::Dup, pos, n, constrained: true, indexed, after: None }
+            Planted { setup, st, clause: "create", kind: Kind::Dup, pos, n, constrained: true, indexed, after: vec![], modelled: true }
         }
         // duplicate value under a unique constraint: SET
         8 => {
@@ -157,7 +162,7 @@ fn gen_case(rng: &mut Rng, n: usize, pos: usize, which: u64) -> Planted {
                 ],
                 ret: None,
             };
-            Planted { setup, st, clause: "set", kind: Kind::Dup, pos, n, constrained: true, indexed, after: None }
+            Planted { setup, st, clause: "set", kind: Kind::Dup, pos, n, constrained: true, indexed, after: vec![], modelled: true }
         }
         // --- round 2: shapes a small edit of the write operators' clean-up could break unseen
         // bound start node, new end node, failure in the relationship property (after the end node was built)
@@ -176,7 +181,7 @@ fn gen_case(rng: &mut Rng, n: usize, pos: usize, which: u64) -> Planted {
                 ],
                 ret: None,
             };
-            Planted { setup, st, clause: "createfrommatch", kind: Kind::Div0, pos, n, constrained: false, indexed, after: None }
+            Planted { setup, st, clause: "createfrommatch", kind: Kind::Div0, pos, n, constrained: false, indexed, after: vec![], modelled: true }
         }
         // two patterns in one CREATE, the second one fails (the first pattern's node must go too)
         11 => {
@@ -187,12 +192,12 @@ fn gen_case(rng: &mut Rng, n: usize, pos: usize, which: u64) -> Planted {
                 ],
                 ret: None,
             };
-            Planted { setup, st, clause: "create2", kind: Kind::Div0, pos, n, constrained: false, indexed, after: None }
+            Planted { setup, st, clause: "create2", kind: Kind::Div0, pos, n, constrained: false, indexed, after: vec![], modelled: true }
         }
         // MERGE whose ON CREATE SET fails after the node was created
         12 => {
             let st = St { cls: vec![Cl::Unwind(Ex::List(poisoned_list(rng, n, pos, Kind::Div0)), 0), Cl::Merge(NPat { props: vec![(0, bin("add", Ex::Var(0), int(100 + pos as i64 * 10 + n as i64)))], ..l1.clone() }, vec![SetItem::Prop(1, 1, fallible(Kind::Div0))], vec![])], ret: None };
-            Planted { setup, st, clause: "mergeoncreate", kind: Kind::Div0, pos, n, constrained: false, indexed, after: None }
+            Planted { setup, st, clause: "mergeoncreate", kind: Kind::Div0, pos, n, constrained: false, indexed, after: vec![], modelled: true }
         }
         // SET with two items, the second violates the unique constraint after the first was applied
         13 => {
@@ -212,7 +217,7 @@ fn gen_case(rng: &mut Rng, n: usize, pos: usize, which: u64) -> Planted {
                 ],
                 ret: None,
             };
-            Planted { setup, st, clause: "set2", kind: Kind::Dup, pos, n, constrained: true, indexed, after: None }
+            Planted { setup, st, clause: "set2", kind: Kind::Dup, pos, n, constrained: true, indexed, after: vec![], modelled: true }
         }
         // created path with constrained node values, failure afterwards in the relationship property:
         // the taken-back nodes must also release their unique values (probed after the statement)
@@ -226,7 +231,7 @@ fn gen_case(rng: &mut Rng, n: usize, pos: usize, which: u64) -> Planted {
                 ],
                 ret: None,
             };
-            Planted { setup, st, clause: "createpath-constrained", kind: Kind::Div0, pos, n, constrained: true, indexed, after: Some(format!("CREATE (:L0 {{k0: {}}})", 70 + pos)) }
+            Planted { setup, st, clause: "createpath-constrained", kind: Kind::Div0, pos, n, constrained: true, indexed, after: vec![(format!("CREATE (:L0 {{k0: {}}})", 70 + pos), true)], modelled: true }
         }
         // DELETE of a connected node at row `pos`
         _ => {
@@ -243,14 +248,14 @@ fn gen_case(rng: &mut Rng, n: usize, pos: usize, which: u64) -> Planted {
                 ret: None,
             };
             let _ = constrained;
-            Planted { setup, st, clause: "delete", kind: Kind::Connected, pos, n, constrained: false, indexed, after: None }
+            Planted { setup, st, clause: "delete", kind: Kind::Connected, pos, n, constrained: false, indexed, after: vec![], modelled: true }
         }
     }
 }
 
 /// what the property index answers for `:L1(k0) = c` vs what the dump implies
 fn index_probe(store: &mut GraphStore, dumped: &DumpG) -> Option<String> {
-    for c in [1i64, 2, 3, 4, 6, 12, 20, 21, 22, 60, 61, 62] {
+    for c in [1i64, 2, 3, 4, 6, 12, 20, 21, 22, 60, 61, 62, 200, 201, 202, 500, 501, 502] {
         let o = exec(store, &format!("MATCH (n:L1) WHERE n.k0 = {} RETURN n.k0 AS c0", c), None);
         let got = o.rows.as_ref().map(|r| r.len()).unwrap_or(usize::MAX);
         let want = dumped
@@ -270,6 +275,81 @@ fn constraints(store: &mut GraphStore) -> String {
         Ok(rows) => rows_text(&rows),
         Err((k, _)) => format!("err:{}", k.tag()),
     }
+}
+
+/// Multi-item write clauses: `m` items, the item at index `j` fails (expression error of `kind`) on the row at
+/// `pos` of `n`.  Earlier items write an indexed / uniquely constrained property, so that a clause applied item by
+/// item leaves visible traces (graph, index, constraint holders).
+///   fam 0  MATCH … SET i0, i1, …            fam 1  MATCH … SET v1.k4 = 7, v1 += {…, k3: <failing>}
+///   fam 2  MERGE … ON CREATE SET i0, i1, …  fam 3  MERGE … ON MATCH SET i0, i1, …
+fn gen_multi(_rng: &mut Rng, fam: u64, constrained: bool, m: usize, j: usize, kind: Kind, n: usize, pos: usize) -> Planted {
+    let indexed = !constrained;
+    let label: u32 = if constrained { 0 } else { 1 };
+    let mut setup: Vec<String> = vec!["CREATE (v1:L2 {k0: 1})-[:T0]->(v2:L2 {k0: 2})".into()];
+    if indexed {
+        setup.push("CREATE INDEX ON :L1(k0)".into());
+    }
+    if constrained {
+        setup.push("CREATE CONSTRAINT ON (n:L0) ASSERT n.k0 IS UNIQUE".into());
+    }
+    let ids: Vec<i64> = (0..n as i64).map(|i| 200 + i).collect();
+    // the nodes the rows address (fam 2 creates them itself)
+    if fam != 2 {
+        for (i, id) in ids.iter().enumerate() {
+            let zero = if i == pos { 0 } else { 3 };
+            let k1 = if i == pos { "'s'".to_string() } else { "4".to_string() };
+            setup.push(format!("CREATE (:L{} {{k0: {}, k2: {}, k5: {}, k1: {}}})", label, id, id, zero, k1));
+        }
+    }
+    // rows carry the operands too (ON CREATE cannot read them from a node that does not exist yet)
+    let rows: Vec<Ex> = (0..n)
+        .map(|i| Ex::Map(vec![(0, int(ids[i])), (5, if i == pos { int(0) } else { int(3) }), (1, if i == pos { s("s") } else { int(4) })]))
+        .collect();
+    let failing = match kind {
+        Kind::Div0 => bin("div", int(12), Ex::Prop(0, 5)),
+        Kind::Type => bin("sub", int(9), Ex::Prop(0, 1)),
+        _ => Ex::Prop(9, 0),
+    };
+    // item 0 (when it is not the failing one) rewrites the indexed / constrained key
+    let good = |t: usize| -> (u32, Ex) {
+        match t {
+            0 => (0, bin("add", Ex::Prop(0, 0), int(300))),
+            1 => (4, int(7)),
+            2 => (6, s("x")),
+            _ => (7, Ex::List(vec![int(1), int(2)])),
+        }
+    };
+    let items: Vec<SetItem> = (0..m).map(|t| if t == j { SetItem::Prop(1, 3, failing.clone()) } else { let (k, e) = good(t); SetItem::Prop(1, k, e) }).collect();
+    let later = j > 0;
+    let (cls, clause): (Vec<Cl>, &'static str) = match fam {
+        0 => (
+            vec![Cl::Unwind(Ex::List(rows), 0), Cl::MatchN(1, vec![label], vec![]), Cl::Filter(bin("eq", Ex::Prop(1, 2), Ex::Prop(0, 0))), Cl::Set(items)],
+            if later { "setmulti-itemlater" } else { "setmulti-itemfirst" },
+        ),
+        1 => {
+            // property item first, then `+=` with a map whose last value fails
+            let map = Ex::Map(vec![(6, int(1)), (3, failing.clone())]);
+            (
+                vec![Cl::Unwind(Ex::List(rows), 0), Cl::MatchN(1, vec![label], vec![]), Cl::Filter(bin("eq", Ex::Prop(1, 2), Ex::Prop(0, 0))), Cl::Set(vec![SetItem::Prop(1, 0, bin("add", Ex::Prop(0, 0), int(300))), SetItem::MAdd(1, map)])],
+                "setmapmulti-itemlater",
+            )
+        }
+        2 => (
+            vec![Cl::Unwind(Ex::List(rows), 0), Cl::Merge(NPat { var: Some(1), labels: vec![label], props: vec![(2, Ex::Prop(0, 0))] }, items, vec![])],
+            if later { "oncreatemulti-itemlater" } else { "oncreatemulti-itemfirst" },
+        ),
+        _ => (
+            vec![Cl::Unwind(Ex::List(rows), 0), Cl::Merge(NPat { var: Some(1), labels: vec![label], props: vec![(2, Ex::Prop(0, 0))] }, vec![], items)],
+            if later { "onmatchmulti-itemlater" } else { "onmatchmulti-itemfirst" },
+        ),
+    };
+    // constraint holders: when the statement fails on its first row nothing may have moved
+    let mut after = vec![];
+    if constrained && pos == 0 {
+        after.push((format!("CREATE (:L0 {{k0: {}}})", 500), true)); // 200 + 300 must not be held
+        after.push((format!("CREATE (:L0 {{k0: {}}})", 200), false)); // the node still holds 200
+    }
+    Planted { setup, st: St { cls, ret: None }, clause, kind, pos, n, constrained, indexed, after, modelled: !constrained && fam != 1 }
 }
 
 struct Done {
@@ -296,9 +376,18 @@ fn run_case(p: Planted) -> Done {
     let cons_post = constraints(&mut store);
     let mut probe = parse_dump(&post).and_then(|d| index_probe(&mut store, &d));
     if probe.is_none() && o.rows.is_err() {
-        if let Some(a) = &p.after {
-            if let Err((_, m)) = exec(&mut store, a, None).rows {
-                probe = Some(format!("`{}` after the failed statement is refused: {}", a, m));
+        for (a, must_succeed) in &p.after {
+            let r = exec(&mut store, a, None).rows;
+            match (r, must_succeed) {
+                (Err((_, m)), true) => {
+                    probe = Some(format!("`{}` after the failed statement is refused: {}", a, m));
+                    break;
+                }
+                (Ok(_), false) => {
+                    probe = Some(format!("`{}` after the failed statement is accepted: the value its node held was released", a));
+                    break;
+                }
+                _ => {}
             }
         }
     }
@@ -406,15 +495,47 @@ fn main() {
                             out: d.out,
                             probe: d.probe,
                             cons_same: d.cons_same,
-                            modelled: d.p.kind != Kind::Dup,
+                            modelled: d.p.kind != Kind::Dup && d.p.modelled,
                         });
                         let _ = (d.p.n, d.p.constrained, d.p.indexed);
                     }
                 }
             }
         }
+        // multi-item clauses: family x item count x failing item x failure kind x (rows, failing row)
+        for fam in 0..4u64 {
+            for m in 2..=4usize {
+                for j in 0..m {
+                    if fam == 1 && (m != 2 || j != 1) {
+                        continue;
+                    }
+                    for kind in [Kind::Div0, Kind::Type, Kind::Unbound] {
+                        for (n, pos, constrained) in [(1usize, 0usize, false), (3, 0, false), (3, 2, false), (1, 0, true), (3, 0, true)] {
+                            if constrained && fam != 0 {
+                                continue;
+                            }
+                            let d = run_case(gen_multi(&mut rng, fam, constrained, m, j, kind, n, pos));
+                            flat.push(Flat {
+                                setup: d.p.setup.join("; "),
+                                term: d.p.st.model(),
+                                text: d.text,
+                                clause: d.p.clause.to_string(),
+                                kind: d.p.kind.tag().to_string(),
+                                pos: d.p.pos,
+                                pre: d.pre,
+                                post: d.post,
+                                out: d.out,
+                                probe: d.probe,
+                                cons_same: d.cons_same,
+                                modelled: d.p.modelled,
+                            });
+                        }
+                    }
+                }
+            }
+        }
         rep.exhaustive = true;
-        rep.exhaustive_note = "every (write shape of 15) x (1..4 input rows) x (failing row position) is planted in each repetition; the non-failing row values are random".into();
+        rep.exhaustive_note = "every (write shape of 15) x (1..4 input rows) x (failing row position) is planted in each repetition; the non-failing row values are random; plus every multi-item clause (SET / SET += / ON CREATE SET / ON MATCH SET) x 2..4 items x failing item position x {div0, type, unbound variable} x {single row, first of 3, last of 3}".into();
     }
 
     let mut lines = vec![];
